@@ -238,7 +238,11 @@ def slerp_lemma():
                  [(((sA * sA) * vP2 + (const(2) * sA * sB) * vPQ + (sB * sB) * vQ2) / (st * st)).eq(1),
                   ((sA * vP2 + sB * vPQ) / st).eq(cB)],
                  doc='trigonometric core of slerp: unit length and angle t*a with the start')
-    return [la, lc, lb]
+    ln = L.Lemma('lemma_slerp_negated', p + q, [],
+                 [RC.qnorm2([-b for b in q]).eq(Q2), X.sum_([a * (-b) for a, b in zip(p, q)]).eq(-PQ)] +
+                 [((const(-1)) * b).eq(-b) for b in q],
+                 doc='negating a quaternion keeps its norm and negates the dot product')
+    return [la, lc, lb, ln]
 
 
 def add_slerp_theorem(u, ls, flip=False):
@@ -263,6 +267,7 @@ def add_slerp_theorem(u, ls, flip=False):
         '        assert(a1 + a2 == th);',
         '        axiom_sin_add(a1, a2); axiom_cos_add(a1, a2); axiom_sin_cos(a1); axiom_sin_cos(a2);',
         '        crate::lemma_slerp_pos(c, eps_r(), sin_r(th));',
+        ('        crate::%s(%s, %s);' % (ls[3].name, pa, ', '.join('q.%s.v@' % x for x in 'xyzw'))) if flip else '',
         '        crate::%s(%s, %s, sin_r(a1), sin_r(a2));' % (ls[0].name, pa, qa),
         '        crate::%s(%s, %s, sin_r(th));' % (ls[1].name, ', '.join('(p.%s.v@ * sin_r(a1) + (%sq.%s.v@) * sin_r(a2))' % (x, sgn, x) for x in 'xyzw'), pa),
         '        crate::%s(%s, %s, %s, sin_r(a1), cos_r(a1), sin_r(a2), cos_r(a2), sin_r(th));' % (
@@ -280,6 +285,9 @@ def add_slerp_theorem(u, ls, flip=False):
         '    let rp = r.dot(p);',
         '    let r0 = Quaternion::slerp_unclamped(p, q, R::zero());',
         '    let r1 = Quaternion::slerp_unclamped(p, q, R::one());',
+        '    proof { assert((1real - 0real) * th == th); assert(0real * th == 0real); assert((1real - 1real) * th == 0real); assert(1real * th == th);',
+        '        ' + ' '.join('lemma_mul_div_cancel(p.%s.v@, sin_r(th)); lemma_mul_div_cancel(%sq.%s.v@, sin_r(th)); assert(p.%s.v@ * 0real == 0real); assert((%sq.%s.v@) * 0real == 0real);'
+                              % (x, sgn, x, x, sgn, x) for x in 'xyzw') + ' }',
     ]
     asserts = ['n.v@ == 1real', 'rp.v@ == cos_r(f.v@ * th)'] + ['r0.%s.v@ == p.%s.v@' % (x, x) for x in 'xyzw'] + \
               ['r1.%s.v@ == %sq.%s.v@' % (x, sgn, x) for x in 'xyzw']
